@@ -215,6 +215,7 @@ def check_render(case):
     wrapped = escaped = False
     for orientation in ("VERTICAL", "HORIZONTAL"):
         out, lay, code, params, _stub = rc.compute(case, orientation)
+        nm = _stub.names
         tag = orientation.lower()
         try:
             pic = Picture(code)
@@ -242,9 +243,9 @@ def check_render(case):
                             cur = next(s.branches[child] for s in lay.values() if child in s.branches)
                         else:
                             owner = child
-                    want = exp_col[owner.name]
+                    want = exp_col[nm[owner]]
                     if br.color != want:
-                        raise Violation(f"colour.{tag}.loss-marker", observed=br.color, expected=want, extra={"edge_of": owner.name})
+                        raise Violation(f"colour.{tag}.loss-marker", observed=br.color, expected=want, extra={"edge_of": nm[owner]})
                     # the marker is drawn on the trunk edge, not in the branch box: widen the box to the trunk
                     t = sub.trunk
                     from superrec2.utils.geometry import Rect
@@ -252,11 +253,11 @@ def check_render(case):
                     box = Rect(t.x, c.y, t.w, 0) if orientation == "VERTICAL" else Rect(c.x, t.y, 0, t.h)
                     boxes["LOSS"].append((box, want))
                     continue
-                want = exp_col[gene.name]
+                want = exp_col[nm[gene]]
                 if br.color != want:
-                    raise Violation(f"colour.{tag}.gene-branch", observed=br.color, expected=want, extra={"node": gene.name})
+                    raise Violation(f"colour.{tag}.gene-branch", observed=br.color, expected=want, extra={"node": nm[gene]})
                 boxes[k].append((br.rect, want))
-                names[k].append((gene.name, br.name))
+                names[k].append((nm[gene], br.name))
         for k, nds in tikz_nodes.items():
             for nd in nds:
                 nd["html"] = pic.colors[nd["color"]]
